@@ -9,6 +9,7 @@ import (
 	"crypto/sha256"
 	"encoding/hex"
 	"fmt"
+	"log"
 	"sort"
 	"strings"
 	"testing"
@@ -29,6 +30,14 @@ type Scenario struct {
 }
 
 var scenarios = map[string]*Scenario{}
+
+// The library's summary / debug loggers print through package log: keep the work
+// (formatting every message) and drop the bytes.
+type nullWriter struct{}
+
+func (nullWriter) Write(p []byte) (int, error) { return len(p), nil }
+
+func init() { log.SetOutput(nullWriter{}) }
 
 func register(sc *Scenario) { scenarios[sc.Name] = sc }
 
